@@ -3,6 +3,7 @@ package sim
 import (
 	"fmt"
 	"path"
+	"sort"
 	"strings"
 
 	"github.com/hack-pad/hackpadfs"
@@ -104,7 +105,43 @@ func runC07(t *T) {
 			}
 		} else {
 			dir := k.dirs[c.Draw(len(k.dirs))]
+			if c.Chance(1, 4) && !strings.HasPrefix(k.name, "mount") {
+				// any directory over the alphabet, not only the fixed ones: e.g. b/a with the name a/a (the view's
+				// directory ends the way the name starts)
+				dir = k.alpha[c.Draw(len(k.alpha))]
+				if c.Chance(2, 3) {
+					dir += "/" + k.alpha[c.Draw(len(k.alpha))]
+				}
+				// preferably one that exists
+				var existing []string
+				for p, e := range snapB.Entries {
+					if e.Kind == "d" && p != "." && strings.Count(p, "/") <= 1 {
+						existing = append(existing, p)
+					}
+				}
+				sort.Strings(existing)
+				if len(existing) > 0 && c.Chance(3, 4) {
+					dir = existing[c.Draw(len(existing))]
+				}
+			}
 			o := g.next()
+			if c.Chance(1, 6) && dir != "." {
+				// self-similar names: the name starts the way the directory ends (dir b/a, name a/a/...)
+				last := dir[strings.LastIndex(dir, "/")+1:]
+				o.P = last + "/" + last
+				if c.Chance(1, 2) {
+					o.P += "/" + k.alpha[c.Draw(len(k.alpha))]
+				}
+				if c.Chance(1, 2) {
+					// with a regular file in the way, so that errors name a path other than the one passed in
+					blocker := Op{Kind: "WriteFullFile", P: path.Join(dir, last), Perm: 0644, Data: []byte("blocker")}
+					applyOp(A, blocker)
+					applyOp(B, blocker)
+					if c.Chance(1, 2) {
+						o = Op{Kind: "MkdirAll", P: o.P, Perm: 0755}
+					}
+				}
+			}
 			// o.P / o.Q are drawn in the whole namespace; use them relative to dir
 			if c.Chance(2, 3) {
 				o.P = viewPath(dir, o.P)
@@ -134,6 +171,15 @@ func runC07(t *T) {
 			view, err := hackpadfs.Sub(A, dir)
 			if err != nil {
 				t.Fail("sub", "C07:"+k.name+":Sub-fails", fmt.Sprintf("Sub(%s, %q) failed: %v", k.name, dir, err))
+			}
+			if c.Chance(1, 10) {
+				// a view of the view at a directory that would lead out of it must be refused
+				esc := []string{"..", "../" + k.alpha[0], k.alpha[0] + "/../..", "/" + k.alpha[0], k.alpha[0] + "/"}[c.Draw(5)]
+				if inner, ierr := hackpadfs.Sub(view, esc); ierr == nil {
+					_, serr := hackpadfs.Stat(inner, ".")
+					t.Fail("escape", "C07:"+k.name+":nested-Sub-escapes", fmt.Sprintf("Sub(Sub(%s, %q), %q) succeeded (Stat of its root: %v): a view of a view outside the view", k.name, dir, esc, serr))
+				}
+				t.Stat("c07:nested-escaping-Sub-refused")
 			}
 			ob := o
 			ob.P = joinView(dir, o.P)
